@@ -245,9 +245,26 @@ def inline_helpers(repo, rel, func, depth=2, keep=()):
                             out += body
                             done = True
                         elif kind == "assign" and ret is not None:
-                            out += body + [ast.Assign(
-                                targets=st.targets, value=ret,
-                                lineno=st.lineno, col_offset=st.col_offset)]
+                            tg0 = st.targets[0]
+                            if isinstance(tg0, ast.Tuple) and isinstance(
+                                    ret, ast.Tuple) and len(tg0.elts) == len(
+                                    ret.elts) and all(
+                                    isinstance(t_, ast.Name)
+                                    for t_ in tg0.elts) and not (
+                                    {t_.id for t_ in tg0.elts}
+                                    & names_in(ret)):
+                                # a, b = helper() with `return x, y`:
+                                # element-wise
+                                out += body + [ast.Assign(
+                                    targets=[t_], value=v_,
+                                    lineno=st.lineno,
+                                    col_offset=st.col_offset)
+                                    for t_, v_ in zip(tg0.elts, ret.elts)]
+                            else:
+                                out += body + [ast.Assign(
+                                    targets=st.targets, value=ret,
+                                    lineno=st.lineno,
+                                    col_offset=st.col_offset)]
                             done = True
                         elif kind == "return" and ret is not None:
                             out += body + [ast.Return(
